@@ -17,3 +17,4 @@ void reg_proxy();
 void reg_life();
 void reg_lifed();
 void reg_tls();
+void reg_tlsraw();
